@@ -394,6 +394,11 @@ def convolve(an, args, kw):
         raise Unsupported('convolution of two series')
     w = tv.len
     if not isinstance(w, int):
+        if mode == 'full' and isinstance(w, IntV) and not isinstance(w, IntD):
+            # out[j] = sum_{t <= j} a[t] v[j - t]: position j depends on a[0..j] whatever the kernel length is
+            ln = an.binop('Sub', an.binop('Add', ta.len, w), 1)
+            keep = ta.fill is not None and is_nan(ta.fill)
+            return an.new_arr(ArrT(ln, ta.lag, lmax(ta.base, tv.base, level_of(w)), ta.cupto if keep else 0, ta.fill if keep else None))
         raise Unsupported('kernel length')
     keep = ta.fill is not None and is_nan(ta.fill)
     base = lmax(ta.base, tv.base)
